@@ -108,7 +108,9 @@ def rule_trav(ctx, rep):
             dup = []
             for a in inl:
                 for b in inl:
-                    if a is b or ir.ap_str(f, a.d["ap"]) != ir.ap_str(f, b.d["ap"]):
+                    # any two forward-pointer loads within one step: whether they are spelled alike (a macro argument
+                    # evaluated twice) or through two cursors that name the same node (pos->next and entry->member.next)
+                    if a is b:
                         continue
                     hit, _ = f.reach([a], [b], avoid=lambda i: i.blk.id in hdr and i.pos == 0)
                     if hit is not None:
@@ -118,7 +120,7 @@ def rule_trav(ctx, rep):
                       "when an updater changes it in between", [dup[0][0].where(), dup[0][1].where()] if dup else [])
         # loads before the loop (first element) likewise single
         pre = [l for l in fw if not any(l.blk.id in c for c in cyc)]
-        dup0 = [(a, b) for a in pre for b in pre if a is not b and ir.ap_str(f, a.d["ap"]) == ir.ap_str(f, b.d["ap"]) and f.reach([a], [b])[0] is not None]
+        dup0 = [(a, b) for a in pre for b in pre if a is not b and f.reach([a], [b])[0] is not None]
         rep.check(not dup0, "C18.trav", tag + ".single-load-first", "the first element is loaded once", "the head's forward pointer is loaded twice before the loop", [dup0[0][0].where()] if dup0 else [])
 
 
